@@ -418,11 +418,84 @@ def closed_violations(schema):
         r = getattr(schema, k)
         if r is not None and schema.types.get(r.name) is not r:
             bad.append("root %s -> %s" % (k, r.name))
+    bad += cache_violations(schema)
+    return bad
+
+
+def expected_possible(schema, t):
+    """Possible object types of an abstract type computed from the registry alone (no cache)."""
+    from py_gql.schema import ObjectType, UnionType
+    if isinstance(t, UnionType):
+        return list(t.types)
+    return [o for o in schema.types.values() if isinstance(o, ObjectType) and any(i.name == t.name for i in o.interfaces)]
+
+
+def cache_violations(schema):
+    """The schema's DERIVED indexes must agree with the registry: `implementations`, `_possible_types`
+    (also through `get_possible_types` / `is_possible_type`) and `_literal_types_cache`."""
+    from py_gql.schema import InterfaceType, ObjectType, UnionType, unwrap_type
+    bad = []
     for iface, impls in schema.implementations.items():
         for o in impls:
             if schema.types.get(o.name) is not o:
-                bad.append("implementations[%s] -> %s" % (iface, o.name))
+                bad.append("implementations[%s] -> %s (%s)" % (iface, o.name, "stale object" if o.name in schema.types else "unregistered name"))
+    for name, t in schema.types.items():
+        if name.startswith("__"):
+            continue
+        if isinstance(t, ObjectType):
+            for i in t.interfaces:
+                if t not in schema.implementations.get(i.name, []):
+                    bad.append("implementations[%s] misses %s (incomplete index)" % (i.name, name))
+    for key, vals in list(schema._possible_types.items()):
+        if schema.types.get(key.name) is not key:
+            continue        # entry of a superseded abstract type object: not reachable through closed references
+        for o in vals:
+            if schema.types.get(o.name) is not o:
+                bad.append("_possible_types[%s] -> %s (%s)" % (key.name, o.name, "stale object" if o.name in schema.types else "unregistered name"))
+        if sorted(x.name for x in vals) != sorted(x.name for x in expected_possible(schema, key)):
+            bad.append("_possible_types[%s] differs from the registry (incomplete index)" % key.name)
+    for name, t in schema.types.items():
+        if name.startswith("__") or not isinstance(t, (InterfaceType, UnionType)):
+            continue
+        got = schema.get_possible_types(t)
+        for o in got:
+            if schema.types.get(o.name) is not o:
+                bad.append("get_possible_types(%s) -> %s (%s)" % (name, o.name, "stale object" if o.name in schema.types else "unregistered name"))
+        exp = expected_possible(schema, t)
+        if sorted(x.name for x in got) != sorted(x.name for x in exp):
+            bad.append("get_possible_types(%s) differs from the registry (incomplete index)" % name)
+        for o in exp:
+            if not schema.is_possible_type(t, o):
+                bad.append("is_possible_type(%s, %s) is False for a registered member (incomplete index)" % (name, o.name))
+    for node, t in list(schema._literal_types_cache.items()):
+        b = unwrap_type(t)
+        if schema.types.get(b.name) is not b:
+            bad.append("_literal_types_cache -> %s (%s)" % (b.name, "stale object" if b.name in schema.types else "unregistered name"))
     return bad
+
+
+def use_schema(schema, depth=2):
+    """Use a schema the way a server does, so that every derived cache is populated:
+    a real query with fragments on the abstract types, the `possibleTypes` introspection,
+    get_possible_types / is_possible_type, get_type_from_literal. Returns the query outcome."""
+    from py_gql.lang import parse_type
+    from py_gql.schema import InterfaceType, ObjectType, UnionType
+    out = run_query(schema, coverage_query(schema, depth))
+    run_query(schema, "{ __schema { types { name kind possibleTypes { name } } } }")
+    for name, t in list(schema.types.items()):
+        if name.startswith("__"):
+            continue
+        if isinstance(t, (InterfaceType, UnionType)):
+            try:
+                for o in schema.get_possible_types(t):
+                    schema.is_possible_type(t, o)
+            except Exception:  # noqa
+                pass
+        try:
+            schema.get_type_from_literal(parse_type("[%s!]" % name))
+        except Exception:  # noqa
+            pass
+    return out
 
 
 # ---------------------------------------------------------------------------
@@ -469,7 +542,7 @@ def _selection(schema, t, depth, counter):
             counter[0] += 1
             parts.append("x%d: %s" % (counter[0], head))
     if isinstance(t, InterfaceType):
-        for o in schema.get_possible_types(t):
+        for o in expected_possible(schema, t):
             parts.append("... on %s { __typename }" % o.name)
     return "{ " + " ".join(parts) + " }"
 
@@ -504,5 +577,7 @@ def introspect(schema):
     for t in sc["types"]:
         types[t["name"]] = {"fields": [f["name"] for f in (t.get("fields") or [])],
                             "inputFields": [f["name"] for f in (t.get("inputFields") or [])],
-                            "args": {f["name"]: [a["name"] for a in f.get("args") or []] for f in (t.get("fields") or [])}}
+                            "args": {f["name"]: [a["name"] for a in f.get("args") or []] for f in (t.get("fields") or [])},
+                            "possibleTypes": None if t.get("possibleTypes") is None else sorted(p["name"] for p in t["possibleTypes"]),
+                            "kind": t["kind"]}
     return types, [d["name"] for d in sc["directives"]]
